@@ -227,7 +227,14 @@ impl Report {
             }
             let _ = write!(o, "{{\"key\":{},\"detail\":{}}}", json_str(&v.key), json_str(&v.detail));
         }
-        o.push_str("],\"machinery_errors\":[");
+        o.push_str("],\"violation_groups\":{");
+        for (i, (k, n)) in g.violation_groups.iter().enumerate() {
+            if i > 0 {
+                o.push(',');
+            }
+            let _ = write!(o, "{}:{}", json_str(k), n);
+        }
+        o.push_str("},\"machinery_errors\":[");
         for (i, s) in g.machinery_errors.iter().enumerate() {
             if i > 0 {
                 o.push(',');
